@@ -615,7 +615,7 @@ package protocol
 //@   abstract
 //@   noinline
 //@   panics
-//@   assert before return#0: kv.noValue == noValue && (noValue ==> len(kv.value) == 0)
+//@   assert before return: kv.noValue == noValue && (noValue ==> len(kv.value) == 0)
 // Header argument lists (slices of argsKV): used at call sites with a frame only; not verified
 // against their bodies (copy of struct elements is outside the modelled subset) - listed as assumed.
 //@ func delAllArgsBytes(args, key) r
